@@ -2,6 +2,10 @@
 line_profiler.line_profiler.show_text for every option combination, and report what the
 environment (os.path.exists + linecache + inspect.getblock) delivers for every stats key.
 
+Cases are run in payload order in ONE process; consecutive cases may share `dir` and rewrite the
+same paths with different contents (multi-step histories: report, edit the file, report again) -
+a rewritten file gets a strictly larger mtime, as an edit by a person would.
+
 payload: {tmp, cases: [{dir, files: {abs path: text}, cells: {ipython cell name: text}, stats: [[fn, lineno, name, [[l, h, t], ...]], ...]
                         (dict insertion order), unit, output_unit, combos: [[strip, sort, summarize, details], ...]}]}
 """
@@ -42,6 +46,19 @@ def observe_env(fn, start, cells):
     return dict(found=True, sub=list(sub))
 
 
+_WRITES = {}
+
+
+def write_file(path, text):
+    with open(path, 'w', encoding='utf-8', newline='') as f:
+        f.write(text)
+    n = _WRITES.get(path, 0)
+    _WRITES[path] = n + 1
+    if n:
+        st = os.stat(path)
+        os.utime(path, ns=(st.st_atime_ns, st.st_mtime_ns + n * 5_000_000_000))
+
+
 def main():
     payload = read_payload()
     from line_profiler.line_profiler import show_text
@@ -54,8 +71,7 @@ def main():
         try:
             for path, text in case['files'].items():
                 assert os.path.realpath(path).startswith(d + os.sep), path
-                with open(path, 'w', encoding='utf-8', newline='') as f:
-                    f.write(text)
+                write_file(path, text)
             stats = {}
             for fn, lineno, name, tm in case['stats']:
                 stats[(fn, lineno, name)] = [tuple(t) for t in tm]
